@@ -162,6 +162,17 @@ def decode_state(ctx, prog, rule='DECODE-STATE'):
             if not calls_it:
                 continue
             assigned = {lv.split('->')[-1].split('[')[0].split('.')[0] for lv, a, r in assigned_lvalues(s) if '->' in lv}
+            # a reset helper of the same file, called before the decoder, re-establishes state on the seek function's behalf (dwvw_read_reset)
+            dec_calls = [c for c in s.calls() if c.get('callee') == f.name]
+            first_dec = min(((c['l'], c['c']) for c in dec_calls), default=(1 << 30, 0))
+            for c in s.calls():
+                g_ = prog.fns.get(c.get('callee') or '', [])
+                if len(g_) == 1 and g_[0].file == s.file and g_[0].name != f.name and (c['l'], c['c']) < first_dec:
+                    gp = _private_param(g_[0])
+                    if gp:
+                        assigned |= {lv.split('->')[-1].split('[')[0].split('.')[0] for lv, a, r in assigned_lvalues(g_[0]) if lv.startswith(gp + '->')}
+                        if any(cc.get('callee') == 'memset' and g_[0].s(g_[0].unwrap(g_[0].args(cc)[0])) == gp for cc in g_[0].calls()):
+                            assigned |= set(car)
             for fld in car:
                 n += 1
                 ok = fld in assigned
